@@ -117,6 +117,14 @@ impl Reporter {
             .count();
         self.sig_seen.insert(signature.to_string());
         if n < 3 && self.out.violations.len() < 60 {
+            // long payloads (values of 2^17 bytes) would drown the report: keep head and tail
+            let what = if what.len() > 6000 {
+                let head: String = what.chars().take(3000).collect();
+                let tail: String = what.chars().rev().take(1500).collect::<Vec<_>>().into_iter().rev().collect();
+                format!("{head} …[{} characters omitted]… {tail}", what.chars().count() - 4500)
+            } else {
+                what
+            };
             self.out.violations.push(Violation {
                 signature: signature.into(),
                 what,
